@@ -1,7 +1,7 @@
 (* C28 — Symbol names map to valid target identifiers.
    Model: Util/Ident.v (ident.Produce for all four styles, the ID bookkeeping of compiler/resolver.go). *)
 From Coq Require Import List ZArith Bool.
-From TM Require Import Lex.Tables Util.Ident Util.Ident_proofs.
+From TM Require Import Lex.Tables Util.Ident Util.Ident_proofs Util.Ident_proofs2.
 Import ListNotations.
 Local Open Scope Z_scope.
 
@@ -40,6 +40,27 @@ Theorem C28_ids_unique_unless_error_reported :
   r_errors (declare_all s ds) = r_errors s -> ids_injective (r_ids (declare_all s ds)).
 Proof. exact resolver_injective. Qed.
 
+(* Produce itself is NOT injective (foo-bar and foo_bar both give FooBar); it is injective up to the collision
+   check: whenever two DIFFERENT declared names (each declared with the style sty assigns to it) get the same
+   identifier, the resolver reports an error ... *)
+Theorem C28_colliding_names_are_reported :
+  forall (sty : bytes -> style) names n1 n2, In n1 names -> In n2 names -> n1 <> n2 ->
+  produce n1 (sty n1) = produce n2 (sty n2) ->
+  (1 <= r_errors (declare_all (mkR [] 0) (decls sty names)))%nat.
+Proof. exact collision_reported. Qed.
+
+(* ... and when no error is reported, the identifier determines the declared name. *)
+Theorem C28_produce_injective_on_declared_unless_reported :
+  forall (sty : bytes -> style) names n1 n2,
+  r_errors (declare_all (mkR [] 0) (decls sty names)) = 0%nat ->
+  In n1 names -> In n2 names -> produce n1 (sty n1) = produce n2 (sty n2) -> n1 = n2.
+Proof. exact produce_injective_on_declared. Qed.
+
+Example C28_collision_example :   (* foo-bar / foo_bar: same identifier FooBar, reported *)
+  produce [102;111;111;45;98;97;114] CamelCase = produce [102;111;111;95;98;97;114] CamelCase /\
+  r_errors (declare_all (mkR [] 0) (decls (fun _ => CamelCase) [[102;111;111;45;98;97;114]; [120]; [102;111;111;95;98;97;114]])) = 1%nat.
+Proof. vm_compute. split; reflexivity. Qed.
+
 Example C28_examples :
   produce [102;111;111;45;98;97;114] CamelCase = [70;111;111;66;97;114] (* foo-bar -> FooBar *) /\
   produce [39;43;39] UpperCase = [80;76;85;83] (* '+' -> PLUS *) /\
@@ -53,3 +74,5 @@ Print Assumptions C28_quoted_names_nonempty.
 Print Assumptions C28_names_with_alnum_nonempty.
 Print Assumptions C28_nonempty_refuted.
 Print Assumptions C28_ids_unique_unless_error_reported.
+Print Assumptions C28_colliding_names_are_reported.
+Print Assumptions C28_produce_injective_on_declared_unless_reported.
